@@ -24,4 +24,4 @@ type Trial struct {
 // Lazy operations: their first call may build package-level state (tables today; anything tomorrow).
 var Lazy = []string{"From16", "To16", "DecodeTyped", "LineariseColor", "EncodeColor", "From8To8", "Adapt", "Primaries", "ToXYZ"}
 
-var All = []string{"From16", "To16", "From8To8", "LineariseColor", "EncodeColor", "DecodeTyped", "LineariseImage", "EncodeImage", "ConvertImage", "Load", "LoadFamily", "LoadFamily", "Adapt", "ToXYZ", "Primaries", "Profile", "TransformBig", "LoadBad", "LoadBad", "TransformTyped", "TransformTyped", "TileTransform", "TileTransform", "TransformContent", "TransformContent", "TransformContent"}
+var All = []string{"From16", "To16", "From8To8", "LineariseColor", "EncodeColor", "DecodeTyped", "LineariseImage", "EncodeImage", "ConvertImage", "Load", "LoadFamily", "LoadFamily", "Adapt", "ToXYZ", "Primaries", "Profile", "TransformBig", "LoadBad", "LoadBad", "TransformTyped", "TransformTyped", "TileTransform", "TileTransform", "TransformContent", "TransformContent", "TransformContent", "LoadBig"}
